@@ -178,3 +178,28 @@ impl<T: Sync + 'static> std::ops::Deref for LazyLock<T> {
 pub fn sched_point() {
     shuttle::thread::sleep(std::time::Duration::ZERO);
 }
+
+#[cfg(verif_shuttle)]
+thread_local! {
+    static TICKS: Cell<u32> = const { Cell::new(0) };
+}
+
+/// Called at the top of loop bodies by the verification build (inserted textually into a generated copy of
+/// the sources): every 1024th call is a scheduling point, so that long loops are preemptible.
+#[cfg(verif_shuttle)]
+#[inline]
+pub fn sched_tick() {
+    let due = TICKS.with(|t| {
+        let n = t.get() + 1;
+        if n >= 1024 {
+            t.set(0);
+            true
+        } else {
+            t.set(n);
+            false
+        }
+    });
+    if due {
+        sched_point();
+    }
+}
